@@ -54,6 +54,18 @@ pub enum Type {
     Array,
 }
 
+impl Type {
+    /// Types whose values can be compared with == and !=
+    fn comparable(&self) -> bool {
+        !matches!(self, Type::Array)
+    }
+
+    /// Types whose values can be ordered with < <= > >=
+    fn ordered(&self) -> bool {
+        !matches!(self, Type::Array | Type::Function)
+    }
+}
+
 // Object is a wrapper over raw pointers so we can tag them with immediate values (null, bool, int)
 #[derive(Copy, Clone)]
 pub struct Object(*mut u8);
@@ -329,9 +341,8 @@ impl PartialEq for Object {
             Type::Null | Type::Bool | Type::Int | Type::Function => self.0 == other.0,
             Type::Float => unsafe { self.as_f64_unchecked() == other.as_f64_unchecked() },
             Type::String => unsafe { self.as_str_unchecked() == other.as_str_unchecked() },
-            Type::Array => {
-                unimplemented!("Can not yet compare objects of type array")
-            }
+            // Arrays are only equal to themselves (comparing contents is up to the language level)
+            Type::Array => self.0 == other.0,
         }
     }
 }
@@ -349,12 +360,8 @@ impl PartialOrd for Object {
             Type::Int => self.as_int().partial_cmp(&other.as_int()),
             Type::Float => unsafe { self.as_f64_unchecked().partial_cmp(&other.as_f64()) },
             Type::String => unsafe { self.as_str_unchecked().partial_cmp(other.as_str()) },
-            Type::Array | Type::Function => {
-                unimplemented!(
-                    "kan objecten van type {} niet vergelijken of sorteren",
-                    self.tag()
-                )
-            }
+            // arrays and functions have no order
+            Type::Array | Type::Function => None,
         }
     }
 }
@@ -396,11 +403,15 @@ macro_rules! impl_logical {
 }
 
 macro_rules! impl_cmp {
-    ($func_name:ident, $op:tt) => {
+    ($func_name:ident, $op:tt, $supported:ident) => {
         #[inline(always)]
         pub fn $func_name(self, rhs: Self, _gc: &mut GC) -> Result<Object, Error> {
             if self.tag() != rhs.tag() {
                 return Err(Error::TypeError(format!("kan objecten met type {} en type {} niet vergelijken", self.tag(), rhs.tag())));
+            }
+
+            if !self.tag().$supported() {
+                return Err(Error::TypeError(format!("kan objecten van type {} niet vergelijken met {}", self.tag(), stringify!($op))));
             }
 
             // Delegate actual comparison to PartialOrd/PartialEq implementation
@@ -416,12 +427,12 @@ impl Object {
     impl_arith!(div, /);
     impl_arith!(rem, %);
 
-    impl_cmp!(gt, >);
-    impl_cmp!(gte, >=);
-    impl_cmp!(lt, <);
-    impl_cmp!(lte, <=);
-    impl_cmp!(eq, ==);
-    impl_cmp!(neq, !=);
+    impl_cmp!(gt, >, ordered);
+    impl_cmp!(gte, >=, ordered);
+    impl_cmp!(lt, <, ordered);
+    impl_cmp!(lte, <=, ordered);
+    impl_cmp!(eq, ==, comparable);
+    impl_cmp!(neq, !=, comparable);
 
     impl_logical!(and, &&);
     impl_logical!(or, ||);
